@@ -74,6 +74,12 @@ def dealias(fn_node):
                 if tt and tt[0] in TABLES and tt[1] is None:
                     # lst = self.<table>.setdefault(k, []) : the rule list of key k (an empty list is created when there is none)
                     alias[n.targets[0].id] = ast.copy_location(ast.Subscript(value=copy.deepcopy(v.func.value), slice=copy.deepcopy(v.args[0]), ctx=ast.Load()), v)
+            if isinstance(v, ast.Call) and isinstance(v.func, ast.Attribute) and v.func.attr == 'get' and len(v.args) == 2 \
+                    and isinstance(v.args[1], (ast.List, ast.Tuple)) and not v.args[1].elts:
+                tt = table_of(v.func.value)
+                if tt and tt[0] in TABLES and tt[1] is None:
+                    # lst = self.<table>.get(k, ()) : the rule list of key k where there is one (an empty stand-in otherwise: nothing to find or remove in it)
+                    alias[n.targets[0].id] = ast.copy_location(ast.Subscript(value=copy.deepcopy(v.func.value), slice=copy.deepcopy(v.args[0]), ctx=ast.Load()), v)
 
     class R(ast.NodeTransformer):
         def visit_Name(self, n):
